@@ -10,29 +10,46 @@ import (
 	"time"
 
 	dtlsconfig "github.com/pion/dtls/v3/internal/config"
+	dtlsflight "github.com/pion/dtls/v3/internal/flight"
 	dtlsflight12 "github.com/pion/dtls/v3/internal/flight/flight12"
 	dtlsstate "github.com/pion/dtls/v3/internal/state"
 )
 
 // DTLS 1.2 FINISHED: the real loop (runHandshakeFSM with fsm12.finish / fsm12.send) is started in FINISHED
-// with the stored final flight, for both roles and both final flights (6, 5b), with 0..NEV received-datagram
-// events queued (IsRetransmit symbolic); the context is cancelled when the queue is empty. No timer exists in
-// FINISHED. Proved: writes happen only in response to a received event, at most one WritePackets per event and
-// it is the stored final flight; a server answers every peer retransmission with a re-send, a client never
-// re-sends; no timer is ever armed (no timer-driven retransmission after completion); the establishment signal
-// is set. (Whether a server also re-sends on a datagram that is NOT a retransmission is the separate entry below.)
+// with the stored final flight, in each of the four flights a completed endpoint can sit in (server: 6 after a
+// full handshake, 4b after an abbreviated one; client: 5 and 5b), with 0..NEV received-datagram events queued
+// (IsRetransmit symbolic); the context is cancelled when the queue is empty. No timer exists in FINISHED.
+// Proved: writes happen only in response to a received event, at most one WritePackets per event and it is the
+// stored final flight; the sender of the handshake's LAST flight (server in 6, client in 5b) answers exactly
+// the peer's retransmissions; the side that completed by receiving the last flight (client in 5, server in 4b)
+// never re-sends; no timer is ever armed (no timer-driven retransmission after completion); the establishment
+// signal is set. On the tree before the repair the (server, 4b) case FAILED: one late retransmitted ClientHello
+// made a completed resumed server re-send flight 4b and fall back into WAITING, from where it retransmitted on
+// the timer (I, 2I, 4I ... 60 s) for as long as the peer stayed silent (confirmed with live connections); and a
+// resumed client never answered the server's retransmitted 4b (its lost 5b was never repaired).
 //
-//symgo:entry covers=finished_server_resend,finished_client_silent,finished_no_event
+//symgo:entry covers=finished_server_resend,finished_client_resend_5b,finished_client_silent,finished_server_4b_silent,finished_no_event
 func zzFinishResend12() {
 	nev := zzsymChoice("events", zzsymParam("NEV")+1)
 	init := zzSymInit()
 	isClient := zzsymChoice("isClient", 2) == 1
-	cur := []dtlsflight12.Flight{dtlsflight12.Flight6, dtlsflight12.Flight5b}[zzsymChoice("flight", 2)]
+	// the flight a completed endpoint sits in: the server's Flight6 / the client's Flight5 after a full handshake,
+	// the server's Flight4b / the client's Flight5b after an abbreviated one
+	resumed := zzsymChoice("resumed", 2) == 1
+	cur := dtlsflight12.Flight6
+	switch {
+	case isClient && resumed:
+		cur = dtlsflight12.Flight5b
+	case isClient:
+		cur = dtlsflight12.Flight5
+	case resumed:
+		cur = dtlsflight12.Flight4b
+	}
 	cfg := &dtlsconfig.HandshakeConfig{InitialRetransmitInterval: init, DisableRetransmitBackoff: zzsymBool("disableBackoff"), Log: zzLog{}}
 	st := dtlsstate.NewState12(isClient)
 	flights := zzFlightPackets()
 	est := NewEstablishment()
-	fsm, _ := NewFSM12(&st, nil, cfg, cur, flights, est).(*fsm12)
+	fsm, _ := NewFSM12(&st, dtlsflight.NewCache(), cfg, cur, flights, est).(*fsm12)
 
 	conn := zzNewConn(nev)
 	ctx := &zzCtxWhenIdle{conn: conn}
@@ -53,16 +70,30 @@ func zzFinishResend12() {
 		zzsymAssert(zzSameFlight(w, flights), "resend_is_the_stored_final_flight")
 	}
 	zzsymAssert(est.Established(), "established_signalled")
-	if nev == 0 {
+	lastSender := cur.IsLastSendFlight() // the server after a full handshake, the client after an abbreviated one
+	switch {
+	case nev == 0:
 		zzsymAssert(len(conn.writes) == 0, "no_write_without_received_event")
 		zzsymCover("finished_no_event")
-	} else if isClient {
-		zzsymAssert(len(conn.writes) == 0, "client_never_resends_after_completion")
-		zzsymCover("finished_client_silent")
-	} else {
-		zzsymAssert(len(conn.writes) >= nRetx, "server_answers_every_peer_retransmission")
+	case lastSender:
+		// RFC 6347 4.2.4: the sender of the handshake's last flight re-sends it when (and only when) the peer
+		// retransmits its own last flight
+		zzsymAssert(len(conn.writes) == nRetx, "last_sender_answers_exactly_the_peer_retransmissions")
 		if len(conn.writes) > 0 {
-			zzsymCover("finished_server_resend")
+			if isClient {
+				zzsymCover("finished_client_resend_5b")
+			} else {
+				zzsymCover("finished_server_resend")
+			}
+		}
+	default:
+		// this side completed BY RECEIVING the last flight: it has nothing to re-send (its own flight was
+		// evidently received), and a re-send would put it back into WAITING with the timer armed
+		zzsymAssert(len(conn.writes) == 0, "receiver_of_last_flight_never_resends_after_completion")
+		if isClient {
+			zzsymCover("finished_client_silent")
+		} else {
+			zzsymCover("finished_server_4b_silent")
 		}
 	}
 }
